@@ -16,8 +16,8 @@ def jobs_for(kind, n, seed):
     rnd = random.Random(seed)
     gk = dict(p_cmd=0.2, cmds=['fail', 'succeed', 'noop', 'pause', 'pause'])
     if kind == 'plain':
-        return ec.random_jobs(rnd, n, schedulers=('default',), label='plain') + ec.catalogue_jobs(schedulers=('default',), seeds=(1,))
-    base = ec.random_jobs(rnd, n, schedulers=('default',), label=kind, gen_kw=gk)
+        return ec.random_jobs(rnd, n, schedulers=('default', 'legacy'), label='plain') + ec.catalogue_jobs(schedulers=('default', 'legacy'), seeds=(1,))
+    base = ec.random_jobs(rnd, n, schedulers=('default', 'legacy'), label=kind, gen_kw=gk)
     out = []
     for k, j in enumerate(base):
         at = rnd.randint(1, 25)
